@@ -825,6 +825,37 @@ def search(res, tier, boost=False):
             if len(os.listdir(cache_dir)) != n_inputs:
                 res.violation('C17:file-name-shared:count', dict(files=sorted(os.listdir(cache_dir)), inputs=n_inputs))
 
+        # deeply graded mesh (20 space levels towards a corner away from parameter 0): element lists that differ only
+        # in elements whose end points agree to many digits must still get different cache entries
+        from src.mesh import MeshParametrized
+        from src.parametrization import UnitSquare
+        with silence_stdout():
+            mesh_d = MeshParametrized(UnitSquare())
+            for _ in range(20 if not thorough else 26):
+                leaf = [e for e in mesh_d.leaf_elements if e.space_interval[0] == 1.0][0]
+                mesh_d.refine_space(leaf)
+        for i, e in enumerate(mesh_d.leaf_elements):
+            e._tok_id = i
+        deep = sorted(mesh_d.leaf_elements, key=lambda e: (e.space_interval[1] - e.space_interval[0], e.space_interval[0]))
+        fixed = deep[-9:]
+        cache_dir = tempfile.mkdtemp(prefix='deep_', dir=tmp)
+        with token_leaves():
+            opd = sl_operator(mesh_d, 0, True, cache_dir=cache_dir)
+            trials = deep[-10:]
+            n_inputs = 0
+            for e in deep[:14]:
+                tests = fixed + [e]
+                with silence_stdout():
+                    got = opd.bilform_matrix(tests, trials)
+                n_inputs += 1
+                res.count(('names-deep', n_inputs), True)
+                if not bits_equal(got, pairwise(opd, tests, trials)):
+                    res.violation('C17:file-name-shared:wrong-matrix:deep-mesh',
+                                  dict(last_test_element=repr(e), note='cache hit on the matrix of a different element list'))
+                    break
+            if len(os.listdir(cache_dir)) != n_inputs and n_inputs == 14:
+                res.violation('C17:file-name-shared:count:deep-mesh', dict(files=len(os.listdir(cache_dir)), inputs=n_inputs))
+
         # load vector with the real leaf (UnitSquare only: the interior mesh generator is per domain)
         cache_dir = tempfile.mkdtemp(prefix='m0_', dir=tmp)
         mesh, elems = make_mesh('UnitSquare', 1, rng, 0)
